@@ -1,11 +1,13 @@
-import PsecModel.Generated.Tables
-import PsecModel.Model.Card
-import PsecModel.Model.Tr31
+import PsecModel.Lemmas.Tables.Ascii
+import PsecModel.Lemmas.Tables.Version
+import PsecModel.Lemmas.Tables.Dispatch
+import PsecModel.Lemmas.Tables.Card
 /-!
 # The model's tables are the tables in the source
 
 `PsecModel/Generated/Tables.lean` is regenerated from `/repo/psec/*.py` on every run (`harness/tables.py`, purely
-syntactic). Each theorem below states that a function of the hand-written model agrees with the regenerated table
+syntactic). The theorems live in `Lemmas/Tables/{Ascii,Version,Dispatch,Card}.lean` (one module per group of tables, so that a table
+that stops agreeing takes down only the theorems about it); each states that a function of the hand-written model agrees with the regenerated table
 **on every key**, not only on the listed ones, so a table edited in the source (an entry changed, added or removed)
 leaves an obligation that no longer checks. The order of the entries does not matter. Every generated table is an
 `Option`: `none` means the translator did not recognise the table's shape in the source (moved, computed, renamed
@@ -13,231 +15,6 @@ beyond recognition); the theorem about it is then vacuous and the run records th
 -/
 namespace Psec.Tables
 open Psec Psec.Generated.Tables
-
-/-! ## generic lifting lemmas: finite check ⇒ statement for every key -/
-
-/-- a character class that is empty from 256 up agrees with a finite set of code points on every natural number as soon
-as it agrees below 256 -/
-theorem class_agree (p : Nat → Bool) (l : List Nat)
-    (hp : ∀ c, 256 ≤ c → p c = false)
-    (hl : l.all (fun x => decide (x < 256)) = true)
-    (hfin : (List.range 256).all (fun c => p c == l.contains c) = true) :
-    ∀ c, p c = l.contains c := by
-  intro c
-  by_cases h : c < 256
-  · have h1 := List.all_eq_true.mp hfin c (List.mem_range.mpr h)
-    exact eq_of_beq h1
-  · rw [hp c (by omega)]
-    cases hc : l.contains c with
-    | false => rfl
-    | true =>
-      have hm : c ∈ l := by simpa using hc
-      have := List.all_eq_true.mp hl c hm
-      simp at this
-      omega
-
-/-- a partial function on strings that is undefined outside a finite key set agrees with an association list whose keys
-lie in that set as soon as it agrees on the set -/
-theorem lookup_agree {β : Type} [DecidableEq β] (f : List Nat → Option β) (tbl : List (List Nat × β)) (keys : List (List Nat))
-    (hout : ∀ v, v ∉ keys → f v = none)
-    (hkeys : tbl.all (fun e => keys.contains e.1) = true)
-    (hin : keys.all (fun k => f k == tbl.lookup k) = true) :
-    ∀ v, f v = tbl.lookup v := by
-  intro v
-  by_cases h : v ∈ keys
-  · exact eq_of_beq (List.all_eq_true.mp hin v h)
-  · rw [hout v h]
-    symm
-    rw [List.lookup_eq_none_iff]
-    intro e he
-    have := List.all_eq_true.mp hkeys e he
-    have hm : e.1 ∈ keys := by simpa using this
-    rw [bne_iff_ne]
-    intro hev
-    exact h (hev ▸ hm)
-
-/-! ## `psec.tools._ascii_*` -/
-
-theorem ascii_n_agree : ∀ l, tools_ascii_n = some l → ∀ c, isDigitC c = l.contains c := by
-  intro l h; unfold tools_ascii_n at h; cases h
-  all_goals exact class_agree _ _ (by intro c h; simp [isDigitC]; omega) (by decide +kernel) (by decide +kernel)
-
-theorem ascii_an_agree : ∀ l, tools_ascii_an = some l → ∀ c, isAlnumC c = l.contains c := by
-  intro l h; unfold tools_ascii_an at h; cases h
-  all_goals exact class_agree _ _ (by intro c h; simp [isAlnumC, isDigitC, isUpperC, isLowerC]; omega) (by decide +kernel) (by decide +kernel)
-
-theorem ascii_pa_agree : ∀ l, tools_ascii_pa = some l → ∀ c, isPrintC c = l.contains c := by
-  intro l h; unfold tools_ascii_pa at h; cases h
-  all_goals exact class_agree _ _ (by intro c h; simp [isPrintC]; omega) (by decide +kernel) (by decide +kernel)
-
-theorem ascii_h_agree : ∀ l, tools_ascii_h = some l → ∀ c, isHexC c = l.contains c := by
-  intro l h; unfold tools_ascii_h at h; cases h
-  all_goals exact class_agree _ _ (by intro c h; simp [isHexC, isDigitC]; omega) (by decide +kernel) (by decide +kernel)
-
-/-- the four `tools.ascii_*` predicates of the model are "every character is in the source's set" -/
-theorem ascii_predicates (s : PyStr) :
-    (∀ l, tools_ascii_n = some l → asciiNumeric s = s.all l.contains) ∧
-    (∀ l, tools_ascii_an = some l → asciiAlnum s = s.all l.contains) ∧
-    (∀ l, tools_ascii_pa = some l → asciiPrintable s = s.all l.contains) ∧
-    (∀ l, tools_ascii_h = some l → asciiHexchar s = s.all l.contains) := by
-  refine ⟨?_, ?_, ?_, ?_⟩
-  · intro l h; unfold asciiNumeric; congr 1; funext c; exact ascii_n_agree l h c
-  · intro l h; unfold asciiAlnum; congr 1; funext c; exact ascii_an_agree l h c
-  · intro l h; unfold asciiPrintable; congr 1; funext c; exact ascii_pa_agree l h c
-  · intro l h; unfold asciiHexchar; congr 1; funext c; exact ascii_h_agree l h c
-
-/-! ## TR-31 per-version and per-algorithm tables (`Header` and `KeyBlock` carry their own copies) -/
-
-def versionKeys : List (List Nat) := [[65], [66], [67], [68]]
-
-theorem macLen_out : ∀ v, v ∉ versionKeys → Tr31.macLen v = none := by
-  intro v h
-  simp [versionKeys] at h
-  simp [Tr31.macLen, h]
-
-theorem algoBs_out : ∀ v, v ∉ versionKeys → Tr31.algoBs v = none := by
-  intro v h
-  simp [versionKeys] at h
-  simp [Tr31.algoBs, h]
-
-theorem header_mac_len_agree : ∀ tbl, header_mac_len = some tbl → ∀ v, Tr31.macLen v = tbl.lookup v := by
-  intro tbl h; unfold header_mac_len at h; cases h
-  all_goals exact lookup_agree _ _ versionKeys macLen_out (by decide +kernel) (by decide +kernel)
-theorem keyblock_mac_len_agree : ∀ tbl, keyblock_mac_len = some tbl → ∀ v, Tr31.macLen v = tbl.lookup v := by
-  intro tbl h; unfold keyblock_mac_len at h; cases h
-  all_goals exact lookup_agree _ _ versionKeys macLen_out (by decide +kernel) (by decide +kernel)
-theorem header_block_size_agree : ∀ tbl, header_block_size = some tbl → ∀ v, Tr31.algoBs v = tbl.lookup v := by
-  intro tbl h; unfold header_block_size at h; cases h
-  all_goals exact lookup_agree _ _ versionKeys algoBs_out (by decide +kernel) (by decide +kernel)
-theorem keyblock_block_size_agree : ∀ tbl, keyblock_block_size = some tbl → ∀ v, Tr31.algoBs v = tbl.lookup v := by
-  intro tbl h; unfold keyblock_block_size at h; cases h
-  all_goals exact lookup_agree _ _ versionKeys algoBs_out (by decide +kernel) (by decide +kernel)
-
-def algoKeys : List (List Nat) := [[84], [68], [65]]
-def algoMax? (alg : PyStr) : Option Nat :=
-  if alg == [84] then some 24 else if alg == [68] then some 24 else if alg == [65] then some 32 else none
-
-theorem algoMaxKeyLen_eq (alg : PyStr) (d : Nat) : Tr31.algoMaxKeyLen alg d = (algoMax? alg).getD d := by
-  unfold Tr31.algoMaxKeyLen algoMax?
-  split
-  · rfl
-  · split
-    · rfl
-    · split <;> rfl
-
-/-- `_algo_id_max_key_len.get(algorithm, default)` -/
-theorem algo_max_key_len_agree : ∀ tbl, keyblock_algo_max_key_len = some tbl →
-    ∀ (alg : PyStr) (d : Nat), Tr31.algoMaxKeyLen alg d = (tbl.lookup alg).getD d := by
-  intro tbl h; unfold keyblock_algo_max_key_len at h; cases h
-  all_goals
-    intro alg d
-    rw [algoMaxKeyLen_eq]
-    congr 1
-    exact lookup_agree algoMax? _ algoKeys
-      (by intro v h; simp [algoKeys] at h; simp [algoMax?, h]) (by decide +kernel) (by decide +kernel) alg
-
-/-! ## dispatch by version: which versions share a binding routine
-
-The translator does not emit the private method names (a rename is harmless); it numbers the routines in order of first
-appearance over the sorted version ids, so the table says *which versions share a routine*: here A and C (class 0), B alone
-(class 1), D alone (class 2). -/
-
-def wrapClass (v : PyStr) : Option Nat :=
-  if v == [66] then some 1 else if v == [68] then some 2
-  else if v == [65] then some 0 else if v == [67] then some 0 else none
-
-theorem wrap_dispatch_agree : ∀ tbl, wrap_dispatch = some tbl → ∀ v, wrapClass v = tbl.lookup v := by
-  intro tbl h; unfold wrap_dispatch at h; cases h
-  all_goals exact lookup_agree _ _ versionKeys (by intro v h; simp [versionKeys] at h; simp [wrapClass, h]) (by decide +kernel) (by decide +kernel)
-theorem unwrap_dispatch_agree : ∀ tbl, unwrap_dispatch = some tbl → ∀ v, wrapClass v = tbl.lookup v := by
-  intro tbl h; unfold unwrap_dispatch at h; cases h
-  all_goals exact lookup_agree _ _ versionKeys (by intro v h; simp [versionKeys] at h; simp [wrapClass, h]) (by decide +kernel) (by decide +kernel)
-
-/-- the model's dispatch is the dispatch by the source's table: versions the source routes to one routine are routed to
-one routine by the model (A and C: the variant binding; B: TDES CMAC; D: AES CMAC) -/
-theorem wrapDispatch_by_table (tbl : List (List Nat × Nat)) (htbl : wrap_dispatch = some tbl)
-    (c : Ciphers) (ver : PyStr) (kbpk : Bytes) (hdr : PyStr) (key : Bytes) (extra : Nat) (ent : Bytes)
-    (hv : Tr31.versionOk ver = true) :
-    Tr31.wrapDispatch c ver kbpk hdr key extra ent =
-      match tbl.lookup ver with
-      | some 1 => Tr31.bWrap c kbpk hdr key extra ent
-      | some 2 => Tr31.dWrap c kbpk hdr key extra ent
-      | some 0 => Tr31.cWrap c kbpk hdr key extra ent
-      | _ => .error (.other "KeyError") := by
-  rw [← wrap_dispatch_agree tbl htbl]
-  simp only [Tr31.versionOk, Bool.or_eq_true, beq_iff_eq] at hv
-  rcases hv with ((h | h) | h) | h <;> subst h <;> rfl
-
-theorem unwrapDispatch_by_table (tbl : List (List Nat × Nat)) (htbl : unwrap_dispatch = some tbl)
-    (c : Ciphers) (ver : PyStr) (kbpk : Bytes) (hdr : PyStr) (kd mac : Bytes)
-    (hv : Tr31.versionOk ver = true) :
-    Tr31.unwrapDispatch c ver kbpk hdr kd mac =
-      match tbl.lookup ver with
-      | some 1 => Tr31.bUnwrap c kbpk hdr kd mac
-      | some 2 => Tr31.dUnwrap c kbpk hdr kd mac
-      | some 0 => Tr31.cUnwrap c kbpk hdr kd mac
-      | _ => .error (.other "KeyError") := by
-  rw [← unwrap_dispatch_agree tbl htbl]
-  simp only [Tr31.versionOk, Bool.or_eq_true, beq_iff_eq] at hv
-  rcases hv with ((h | h) | h) | h <;> subst h <;> rfl
-
-/-! ## second-pass decimalisation (`str.translate` with a literal table) and the IBM 3624 alphabet -/
-
-/-- what `str.translate(table)` does to one code point: mapped if listed, unchanged otherwise -/
-def translate1 (tbl : List (Nat × Nat)) (c : Nat) : Nat := (tbl.lookup c).getD c
-
-theorem aflower_cases (c : Nat) (h : Card.isAFlower c = true) :
-    c = 97 ∨ c = 98 ∨ c = 99 ∨ c = 100 ∨ c = 101 ∨ c = 102 := by
-  simp [Card.isAFlower] at h
-  omega
-
-theorem cvv_translate_agree : ∀ tbl, cvv_translate = some tbl →
-    ∀ c, Card.isAFlower c = true → translate1 tbl c = c - 49 := by
-  intro tbl h; unfold cvv_translate at h; cases h
-  all_goals
-    intro c hc
-    rcases aflower_cases c hc with h | h | h | h | h | h <;> subst h <;> decide
-
-theorem pvv_translate_agree : ∀ tbl, pvv_translate = some tbl →
-    ∀ c, Card.isAFlower c = true → translate1 tbl c = c - 49 := by
-  intro tbl h; unfold pvv_translate at h; cases h
-  all_goals
-    intro c hc
-    rcases aflower_cases c hc with h | h | h | h | h | h <;> subst h <;> decide
-
-/-- the model's second pass is `translate` by a table that maps `a..f` as the source's does -/
-theorem decimalize_by (tbl : List (Nat × Nat)) (ht : ∀ c, Card.isAFlower c = true → translate1 tbl c = c - 49)
-    (hex : PyStr) (n : Nat) :
-    Card.decimalize hex n =
-      (let d := (hex.filter Card.isDecC).take n
-       if d.length < n then d ++ ((hex.filter Card.isAFlower).take (n - d.length)).map (translate1 tbl) else d) := by
-  unfold Card.decimalize
-  simp only
-  split
-  · congr 1
-    apply List.map_congr_left
-    intro c hc
-    have hc' := (List.mem_filter.mp (List.mem_of_mem_take hc)).2
-    exact (ht c hc').symm
-  · rfl
-
-/-- CVV and PVV: the model's second pass is `translate` by the table written in the source -/
-theorem decimalize_by_table (hex : PyStr) (n : Nat) :
-    (∀ tbl, cvv_translate = some tbl → Card.decimalize hex n =
-      (let d := (hex.filter Card.isDecC).take n
-       if d.length < n then d ++ ((hex.filter Card.isAFlower).take (n - d.length)).map (translate1 tbl) else d)) ∧
-    (∀ tbl, pvv_translate = some tbl → Card.decimalize hex n =
-      (let d := (hex.filter Card.isDecC).take n
-       if d.length < n then d ++ ((hex.filter Card.isAFlower).take (n - d.length)).map (translate1 tbl) else d)) :=
-  ⟨fun tbl h => decimalize_by tbl (cvv_translate_agree tbl h) hex n,
-   fun tbl h => decimalize_by tbl (pvv_translate_agree tbl h) hex n⟩
-
-/-- every `str.maketrans` source alphabet in `pin.py` is `0123456789ABCDEF`, i.e. position `v` holds the upper-case hex
-digit of value `v` — which is what lets the model index the conversion table by `hexVal` -/
-theorem ibm_alphabet_agree : ∀ l, ibm_maketrans_from = some l →
-    l.all (fun a => a.length == 16 && (List.range 16).all (fun v => hexVal (a.getD v 0) == some v && a.getD v 0 == hexDigitU v)) = true := by
-  intro l h; unfold ibm_maketrans_from at h; cases h
-  all_goals decide +kernel
 
 /-! ## non-vacuity on the tree these were written against: every table is recognised -/
 
